@@ -12,7 +12,7 @@ for rel in "$@"; do
 done
 cd $D/repo
 rm -f $D/dev.json
-CARGO_NET_OFFLINE=true timeout ${DEV_TIMEOUT:-1800} cargo kani -Z function-contracts -Z stubbing -Z unstable-options --output-format terse -j ${DEV_JOBS:-16} --harness-timeout ${DEV_HT:-900}s --export-json $D/dev.json --harness "$F" > $D/dev.out 2>&1
+CARGO_NET_OFFLINE=true timeout ${DEV_TIMEOUT:-1800} cargo kani -Z function-contracts -Z stubbing -Z unstable-options --output-format terse -j ${DEV_JOBS:-16} --harness-timeout ${DEV_HT:-900}s --export-json $D/dev.json $(echo "$F" | tr "," "\n" | sed "s/^/--harness /") > $D/dev.out 2>&1
 grep -E "^error|^\s+-->|Failed Checks|File:|unwinding|VERIFICATION:|Stub:|Complete -|failed for|^Thread [0-9]+: Checking|Verification Time" $D/dev.out | grep -v "register_tool" | head -${DEV_LINES:-80}
 python3 - <<PY
 import json,os
